@@ -512,14 +512,7 @@ where
             pos.into()
         };
 
-        let progress = Progress {
-            draw: self.draw_count,
-            chain: self.chain,
-            diverging: info.diverging,
-            tuning: self.adapt.is_tuning(),
-            step_size: self.hamiltonian.step_size(),
-            num_steps: info.num_steps,
-        };
+        let step_size = self.hamiltonian.step_size();
 
         // The collector was already fed during mclmc_kernel via register_leapfrog
         // on the sampled steps. Now call adapt with whatever was accumulated.
@@ -538,6 +531,17 @@ where
             // Refresh the collector for the next draw.
             self.collector = self.adapt.new_collector(math);
         }
+
+        // Read the tuning flag only after `adapt` has seen this draw, so that exactly
+        // the first `num_tune` draws are reported as tuning (as in `NutsChain::draw`).
+        let progress = Progress {
+            draw: self.draw_count,
+            chain: self.chain,
+            diverging: info.diverging,
+            tuning: self.adapt.is_tuning(),
+            step_size,
+            num_steps: info.num_steps,
+        };
 
         self.draw_count += 1;
         self.state = state;
